@@ -400,9 +400,11 @@ func (n *Tree[V]) findNode(path string, captures []string, matcher LookupMatcher
 
 	if n.catchAllChild != nil {
 		// Hit the catchall, so just assign the whole remaining path.
+		catchAllCaptures := append(captures, path)
+
 		for idx, value = range n.catchAllChild.values {
-			if match := matcher.Match(value, n.wildcardKeys, captures); match {
-				return n.catchAllChild, idx, append(captures, path), false
+			if match := matcher.Match(value, n.catchAllChild.wildcardKeys, catchAllCaptures); match {
+				return n.catchAllChild, idx, catchAllCaptures, false
 			}
 		}
 
